@@ -19,6 +19,10 @@ def scenarios(quick):
                 for t in range(0, T):
                     for gap in (0, 1):
                         out.append(scenario(st, fns, [start(1, 0, True), env("AsyncCancel", t, 1, gap=gap)], readers=True))
+    # a Cancel while an earlier cancellation result (a timed-out attempt) is still stored
+    for ct in (4, 5, 6):
+        fns = [[fn(4, "R0", "E1", True), fn(2, "R1", None, True), fn(1, "R1")]]
+        out.append(scenario([retry(2, dly=3), to(3)], fns, [start(1, 0, True), env("AsyncCancel", ct, 1)], readers=True))
     return out
 
 
